@@ -419,7 +419,8 @@ func c18Flate(c *Ctx) {
 			s.F[iErr] = fold.Sym{Name: "old-error", NonNil: true}
 			s.F[iSrc] = fold.Iface{V: fold.Sym{Name: "old-src", NonNil: true}}
 			sv := s.F[iSr].(fold.Struct)
-			sv.F[sR] = fold.Nil{}
+			// the previous source was abandoned before its end and is of another kind than the new one
+			sv.F[sR] = fold.Iface{V: fold.Sym{Name: "stale-src", NonNil: true}}
 			sv.F[sPos] = fold.K(9)
 			obj = mm.NewObj("r", s)
 			return []fold.Val{fold.Ref{O: obj}, fold.Iface{V: fold.Sym{Name: "src", NonNil: true}}}
@@ -447,6 +448,19 @@ func c18Flate(c *Ctx) {
 			}
 			if !target {
 				problems = append(problems, "the decompressor is neither Reset nor re-created on the suffixed reader")
+			}
+			// the view handed to the decompressor (with or without ReadByte) must be chosen from the new source
+			onNew, onOld := false, false
+			for _, ch := range p.Choices {
+				if strings.HasPrefix(ch.Key, "assert(src,") {
+					onNew = true
+				}
+				if strings.HasPrefix(ch.Key, "assert(stale-src,") {
+					onOld = true
+				}
+			}
+			if onOld || !onNew {
+				problems = append(problems, "the ByteReader view of the suffixed reader is chosen before the new source is installed (decided on the previous source): a decompressor may call ReadByte on a source that has none")
 			}
 		})
 		for _, p := range ps {
